@@ -171,12 +171,20 @@ func hash(fileAnnotation FileAnnotation) string {
 		path = fileInfo.ExternalPath()
 	}
 	hash := sha256.New()
+	// Each component is followed by a NUL delimiter so that distinct annotations
+	// cannot produce the same byte stream (line 1 column 23 vs line 12 column 3).
 	_, _ = hash.Write([]byte(path))
+	_, _ = hash.Write([]byte{0})
 	_, _ = hash.Write([]byte(strconv.Itoa(fileAnnotation.StartLine())))
+	_, _ = hash.Write([]byte{0})
 	_, _ = hash.Write([]byte(strconv.Itoa(fileAnnotation.StartColumn())))
+	_, _ = hash.Write([]byte{0})
 	_, _ = hash.Write([]byte(strconv.Itoa(fileAnnotation.EndLine())))
+	_, _ = hash.Write([]byte{0})
 	_, _ = hash.Write([]byte(strconv.Itoa(fileAnnotation.EndColumn())))
+	_, _ = hash.Write([]byte{0})
 	_, _ = hash.Write([]byte(fileAnnotation.Type()))
+	_, _ = hash.Write([]byte{0})
 	_, _ = hash.Write([]byte(fileAnnotation.Message()))
 	return string(hash.Sum(nil))
 }
